@@ -1,6 +1,6 @@
 (* C09 - storing known content never creates a second copy.  Statements only (partial: see MANIFEST). *)
 From Coq Require Import List ZArith NArith.
-From DOS Require Import Base Store StoreProofs StoreLemmas MonoStep Programs ProgramsProofs.
+From DOS Require Import Base Store StoreProofs StoreLemmas MonoStep Programs ProgramsProofs PackProofs AddPackProofs.
 Import ListNotations.
 
 Section C09.
@@ -41,8 +41,59 @@ Proof.
   - apply (MonoStep.g_aset_eq N.eqb N.eqb_spec).
   - apply (MonoStep.g_aset_neq N.eqb N.eqb_spec); auto.
 Qed.
+
+(* direct-to-pack, ALL batches (any repetitions; known and new keys in any order), all three modes, EVERY crash point: the invariant
+   holds (in particular: no key indexed twice, rows valid) and everything stored stays stored *)
+Theorem C09_add_to_pack_every_prefix : forall w l id objs nh twice fs m,
+  Inv H inflate w -> pending l = [] -> Forall (aobj_ok H inflate) objs ->
+  let w' := crash (run_events (w, l) (firstn m (p_add_to_pack w id objs nh twice fs))) in
+  Inv H inflate w' /\ (forall k c, stored inflate w k = Some c -> stored inflate w' k = Some c).
+Proof.
+  intros w l id objs nh twice fs m A B C.
+  destruct (add_to_pack_crash_safe H inflate H_inj w l id objs nh twice fs m A B C) as (X & Y & _). split; assumption.
+Qed.
+
+(* the no_holes option (both read_twice values), completed call: the pack is its old bytes followed by the stored bytes of exactly the
+   objects whose key was not indexed before - each once, in first-occurrence order (atp_bytes): nothing is added for known content and
+   no unreferenced byte is left behind; other packs and the loose folder are untouched *)
+Theorem C09_no_holes : forall w l id objs twice fs,
+  pending l = [] ->
+  exists w' l' syn, run_events (w, l) (p_add_to_pack w id objs true twice fs) = (w', l') /\
+    get_pack w' id = Some (mkFile (Dof w id ++ atp_bytes true (map rkey (db w)) objs) syn) /\
+    (forall j, j <> id -> get_pack w' j = get_pack w j) /\ loose w' = loose w.
+Proof. exact add_to_pack_no_holes_final. Qed.
+
+(* a batch of known content only adds nothing at all *)
+Theorem C09_known_only_adds_nothing : forall known objs,
+  (forall o, In o objs -> In (okey o) known) -> atp_bytes true known objs = [].
+Proof.
+  intros known objs. induction objs as [|o t IH]; intros Hk; [reflexivity|].
+  cbn [atp_bytes andb]. assert (E : existsb (N.eqb (okey o)) known = true).
+  { apply existsb_exists. exists (okey o). split; [apply Hk; left; reflexivity|apply N.eqb_refl]. }
+  rewrite E. apply IH. intros o' Ho'. apply Hk. right; exact Ho'.
+Qed.
 End C09.
 Print Assumptions C09_one_index_entry_per_key.
 Print Assumptions C09_existing_entries_untouched.
 Print Assumptions C09_known_loose_content_is_a_noop.
 Print Assumptions C09_one_loose_file_per_key.
+Print Assumptions C09_add_to_pack_every_prefix.
+Print Assumptions C09_no_holes.
+Print Assumptions C09_known_only_adds_nothing.
+
+(* regression witness of finding F3 (pre-repair loop: after a known object the handle is sought back but the pack is NOT truncated at
+   once; offsets keep coming from tell()): pack [1] holds key 1; the batch [known 1; new 2] indexes key 2 at offset 1, where the
+   duplicate's byte sits, and the final truncate cuts the new object's byte away - the checker rejects the result *)
+Definition f3H (b : bytes) : key := match b with [x] => x | _ => 0%N end.
+Definition f3_world : world := {| loose := []; packs := [(0%Z, mkFile [1%N] [1%N])]; sandbox := []; db := [mkRow 1%N 0%Z 0 1 false 1] |}.
+Definition f3_v0_trace : list event :=
+  [EOpenPack 0%Z; EWrite (HPack 0%Z) [1%N]; (* known: seek back to 1, no truncate *) EWrite (HPack 0%Z) [2%N];
+   ETruncate 0%Z 2; ESql (SInsert true [mkRow 2%N 0%Z 1 1 false 1]); EFlush (HPack 0%Z); EFsync (HPack 0%Z); EClose (HPack 0%Z); ECommit].
+Theorem C09_no_truncate_v0_refuted :
+  inv_b f3H (fun _ => None) f3_world = true /\
+  inv_b f3H (fun _ => None) (crash (run_events (f3_world, local0) f3_v0_trace)) = false /\
+  (* while the repaired program on the same batch is accepted *)
+  inv_b f3H (fun _ => None) (crash (run_events (f3_world, local0)
+     (p_add_to_pack f3_world 0%Z [mkPobj 1%N [1%N] false 1; mkPobj 2%N [2%N] false 1] true false true))) = true.
+Proof. vm_compute. repeat split. Qed.
+Print Assumptions C09_no_truncate_v0_refuted.
